@@ -469,7 +469,8 @@ def check_read(run: Run, prog: Program) -> None:
         def is_fetcher(e: ast.AST, nid: int) -> bool:
             out = fl.origin(e, nid, through_helpers=False)
             for o in out:
-                if o.kind == "expr" and isinstance(o.node, ast.Subscript) and u(o.node.value) == "self._metric_fetchers":
+                if o.kind == "expr" and isinstance(o.node, ast.Subscript) and all(
+                        q.kind == "expr" and u(q.node) == "self._metric_fetchers" for q in o.flow.origin(o.node.value, o.nid, through_helpers=False)):
                     continue
                 if o.kind == "iter" and o.node is not None:
                     it = u(o.node)
